@@ -89,6 +89,16 @@ StateChecks(e) ==
   /\ Chk(C05_Epochs(sc', mem'.ep), "P", e, "C05_Epochs")
   /\ Chk(C05_EpochsBacked(sc', mem'.ep, nw'), "P", e, "C05_EpochsBacked")
 
+\* follow-up operations: C05_EpochsBacked only when the log the operation started from had no offset gap
+\* (see StateOKAfter in CommitLogCrash.tla)
+StateChecksAfter(e) ==
+  /\ Chk(scerr' = "", "P", e, "C05_ScanReadable")
+  /\ Chk(C05_NoDup(sc'), "P", e, "C05_NoDup")
+  /\ Chk(C05_NewestOK(sc', nw'), "P", e, "C05_NewestOK")
+  /\ Chk(C05_ReadAt(sc', rd'), "P", e, "C05_ReadAt")
+  /\ Chk(C05_Epochs(sc', mem'.ep), "P", e, "C05_Epochs")
+  /\ Chk(Gappy(sc) \/ C05_EpochsBacked(sc', mem'.ep, nw'), "P", e, "C05_EpochsBacked")
+
 TraceNext ==
   /\ Trace[l].a # "End"
   /\ l' = l + 1
@@ -107,7 +117,7 @@ TraceNext ==
                 /\ Chk(ObserveOK, "I", e, "observe")
         ELSE /\ Chk(P_Op(e.args, sc, nw, LastBase, mem.hw, obs', sc', mem'.hw), "P", e, "P_Op")
              /\ IF obs'.err # "" THEN TRUE
-                ELSE StateChecks(e) /\ Chk(C05_NoGhost(Ghostable(e.args, sc, LastBase, nw, mem.hw), sc', nw'), "P", e, "C05_NoGhost")
+                ELSE StateChecksAfter(e) /\ Chk(C05_NoGhost(Ghostable(e.args, sc, LastBase, nw, mem.hw), sc', nw'), "P", e, "C05_NoGhost")
              /\ Chk(ImplOp(e.args), "I", e, "step")
              /\ Chk(ObserveOK, "I", e, "observe")
 
